@@ -1,6 +1,44 @@
+import Olla.Driver.C01
+import Olla.Driver.C02
+import Olla.Driver.C03
+import Olla.Driver.C04
+import Olla.Driver.C05
 import Olla.Driver.C06
+import Olla.Driver.C07
+import Olla.Driver.C08
+import Olla.Driver.C09
+import Olla.Driver.C10
+import Olla.Driver.C11
+import Olla.Driver.C12
+import Olla.Driver.C13
+import Olla.Driver.C14
+import Olla.Driver.C15
+import Olla.Driver.C16
+import Olla.Driver.C17
+import Olla.Driver.C18
+import Olla.Driver.C19
+import Olla.Driver.C20
 
 def main (args : List String) : IO UInt32 := do
   match args with
+  | ["C01"] => Olla.Driver.C01.main; return 0
+  | ["C02"] => Olla.Driver.C02.main; return 0
+  | ["C03"] => Olla.Driver.C03.main; return 0
+  | ["C04"] => Olla.Driver.C04.main; return 0
+  | ["C05"] => Olla.Driver.C05.main; return 0
   | ["C06"] => Olla.Driver.C06.main; return 0
+  | ["C07"] => Olla.Driver.C07.main; return 0
+  | ["C08"] => Olla.Driver.C08.main; return 0
+  | ["C09"] => Olla.Driver.C09.main; return 0
+  | ["C10"] => Olla.Driver.C10.main; return 0
+  | ["C11"] => Olla.Driver.C11.main; return 0
+  | ["C12"] => Olla.Driver.C12.main; return 0
+  | ["C13"] => Olla.Driver.C13.main; return 0
+  | ["C14"] => Olla.Driver.C14.main; return 0
+  | ["C15"] => Olla.Driver.C15.main; return 0
+  | ["C16"] => Olla.Driver.C16.main; return 0
+  | ["C17"] => Olla.Driver.C17.main; return 0
+  | ["C18"] => Olla.Driver.C18.main; return 0
+  | ["C19"] => Olla.Driver.C19.main; return 0
+  | ["C20"] => Olla.Driver.C20.main; return 0
   | _ => IO.eprintln s!"usage: olla_model <property-id>   (got {args})"; return 2
